@@ -5,8 +5,8 @@
 # runs the given quick checks (default: the property's own) and reverts.
 ID="$1"; shift
 CHECKS="${@:-$ID}"
-WT=/tmp/seed/$ID
-OUT=/verif/seeded/$ID
+WT=${SEEDROOT:-/tmp/seed}/$ID
+OUT=/verif/seeded/$ID${OUTSUFFIX:-}
 export CARGO_NET_OFFLINE=true
 [ -f $WT/SEEDED/patch.diff ] || { echo "no SEEDED/patch.diff in $WT"; exit 2; }
 mkdir -p $OUT
@@ -45,7 +45,7 @@ git checkout -- .
 python3 - "$ID" "$WITH" "$WITHOUT" "$RES" "$DEMO" <<'PY'
 import json, sys, os
 pid, w, wo, res, demo = sys.argv[1:6]
-out = '/verif/seeded/%s' % pid
+out = '/verif/seeded/%s%s' % (pid, os.environ.get('OUTSUFFIX',''))
 notes = ''
 for n in ('notes.md',):
     p = os.path.join(out, n)
